@@ -554,7 +554,10 @@ Section Level.
   Variable rec_block : list item -> Z -> Z -> result.
 
   (* metacommands.repeat: for _ in range(n): count the iteration (break with an error when over the
-     budget); chunk = compile_block(body, addr); addr += len(chunk) *)
+     budget); chunk = compile_block(body, addr); addr += len(chunk); chunks.append(chunk).
+     The result is b"".join(chunks) when no chunk is deferred, else the left fold 'result += chunk'
+     (commit 7c32a54, a pure performance repair): at the value level both are the concatenation of
+     the chunks in order (Proofs/TreeCacheP.v: join_is_fold), which is what [loop] returns *)
   Fixpoint loop (n : nat) (body : list item) (a c : Z) : result :=
     match n with
     | O => Ok (([], c), body, [])
